@@ -162,7 +162,15 @@ func scriptHash(script []byte) string {
 }
 
 func (e *elNode) SubscribeHeaders(ctx context.Context) (<-chan *goelectrum.SubscribeHeadersResult, error) {
+	e.c.mu.RLock()
+	defer e.c.mu.RUnlock()
 	return e.c.hdr, nil
+}
+
+func (c *Chain) headers() chan *goelectrum.SubscribeHeadersResult {
+	c.mu.RLock()
+	defer c.mu.RUnlock()
+	return c.hdr
 }
 
 func (e *elNode) GetHistory(ctx context.Context, sh string) ([]*goelectrum.GetMempoolResult, error) {
@@ -654,6 +662,12 @@ func NewWorld(ctl *Ctl, dir string, cfg Cfg) (*World, error) {
 func (w *World) StartNode(recoverSwaps bool) error {
 	if w.cancel != nil {
 		w.cancel()
+		// the watcher goroutine of the stopped process keeps the old subscription; the new process subscribes anew
+		for _, c := range w.Chain {
+			c.mu.Lock()
+			c.hdr = make(chan *goelectrum.SubscribeHeadersResult)
+			c.mu.Unlock()
+		}
 	}
 	ctx, cancel := context.WithCancel(context.Background())
 	w.cancel = cancel
@@ -712,7 +726,7 @@ func (w *World) StartNode(recoverSwaps bool) error {
 	if w.El != nil && w.Cfg.LbtcWatcher != "rpc" {
 		started := make(chan error, 1)
 		go func() { started <- w.El.StartWatchingTxs() }()
-		w.Chain["lbtc"].hdr <- &goelectrum.SubscribeHeadersResult{Height: int32(w.Chain["lbtc"].tip())}
+		w.Chain["lbtc"].headers() <- &goelectrum.SubscribeHeadersResult{Height: int32(w.Chain["lbtc"].tip())}
 		if err := <-started; err != nil {
 			return err
 		}
@@ -751,7 +765,7 @@ func (w *World) Notify(chain string, tip uint32) {
 	deadline := time.Now().Add(20 * time.Millisecond)
 	for {
 		select {
-		case w.Chain[chain].hdr <- h:
+		case w.Chain[chain].headers() <- h:
 			return
 		default:
 		}
